@@ -550,6 +550,18 @@ class GlobalFS:
                 return r.close()
             return real_close(fd)
 
+        real_listdir = os.listdir
+
+        def sim_listdir(path="."):
+            names = real_listdir(path)
+            dk = fs.disk
+            if dk is not None and not isinstance(path, int):
+                p = os.path.normpath(os.fspath(path)) if not isinstance(path, bytes) else None
+                if p is not None and (p == "." or p in dk.cwds):
+                    names = sorted(set(names) | set(dk.files))        # simulated files live in the current directory
+            return names
+
+        os.listdir = sim_listdir
         os.open, os.write, os.read, os.close = sim_os_open, sim_write, sim_read, sim_close
         real_access, real_fstat, real_chmod, real_utime = os.access, os.fstat, os.chmod, os.utime
 
